@@ -212,8 +212,8 @@ def run_variant(kind, v):
         cp = subprocess.run(["clang++", "-std=" + std, "-I" + d + "/include", "-fsyntax-only", "-w",
                              os.path.join(VERIF, "corpus", corp + ".cpp")], capture_output=True, text=True)
         res["compiles"] = cp.returncode == 0
-        if cp.returncode != 0 and kind == "benign":
-            res["status"] = "DOES-NOT-COMPILE"
+        if cp.returncode != 0:
+            res["status"] = "DOES-NOT-COMPILE" if kind == "benign" else "INVALID(does not compile)"
             res["err"] = cp.stderr[-300:]
             return res
         rules = set()
@@ -252,7 +252,7 @@ def main():
     if not flt:
         with open(os.path.join(VERIF, "selftest", "RESULTS.json"), "w") as fh:
             json.dump({"results": results}, fh, indent=1)
-    bad = [r for r in results if r["status"] not in ("CAUGHT", "SILENT")]
+    bad = [r for r in results if r["status"] not in ("CAUGHT", "SILENT", "INVALID(does not compile)")]
     print("%d variants, %d not as expected" % (len(results), len(bad)))
     return 1 if bad else 0
 
